@@ -11,7 +11,8 @@ PROPS_MODULES = ['TenpyModel.C04.Props']
 LEVEL = 'proof'
 BUDGET = {'quick': 175, 'thorough': 1700}
 RULE = ('the C01 program stream (random typed programs over the public tensor operations, all charge structures, '
-        'five dtypes, ~12 % malformed calls) executed in two fresh interpreter processes per batch: (cy) a scratch '
+        'five dtypes, ~12 % malformed calls, 18 % of the quick-tier programs from the high-rank fusion stream: rank 5-7 '
+        'tensors, combine_legs / split_legs with pipes on trailing axes, i.e. block copies with >= 4 dimensions) executed in two fresh interpreter processes per batch: (cy) a scratch '
         'overlay of the tree with _npc_helper built from the CURRENT .pyx (cached by source hash; the in-tree binary '
         'is never used) and (py) TENPY_NO_CYTHON=1. Verdict: per step both must agree on legs (nested pipes, sorted/'
         'bunched flags), labels, total charge, canonicalised block list, values (exact: integer-valued inputs), '
